@@ -4,9 +4,9 @@ import (
 	"encoding/json"
 	"fmt"
 	"os"
+	"runtime"
 	"runtime/debug"
 	"runtime/pprof"
-	"runtime"
 	"strconv"
 	"strings"
 	"sync"
@@ -81,13 +81,13 @@ type hist struct {
 	prevPooled    map[Hash]bool // txids pooled at the previous walk
 	baseHeight    uint32
 
-	v       *pview
-	step    int
-	kind    string
-	jf      *os.File
-	jtail   []string
-	maxPool int
-	stopped bool
+	v        *pview
+	step     int
+	kind     string
+	jf       *os.File
+	jtail    []string
+	maxPool  int
+	stopped  bool
 	poisonOn bool
 
 	utxo   refchain.UTXO // the node's UTXO dump, refreshed after every delivered block
@@ -105,7 +105,7 @@ type hist struct {
 		start  time.Time
 		retry0 uint64
 	}
-	maxEvNet        int
+	maxEvNet int
 }
 
 func (h *hist) note(format string, a ...interface{}) {
@@ -661,5 +661,3 @@ func (h *hist) check(full bool) bool {
 	h.stopped = true
 	return false
 }
-
-var _ = strings.Contains
